@@ -21,6 +21,7 @@ import (
 
 	"github.com/saucelabs/forwarder"
 	"github.com/saucelabs/forwarder/hostsfile"
+	"golang.org/x/net/idna"
 	"github.com/saucelabs/forwarder/pac"
 
 	"verifharness/coqfmt"
@@ -324,9 +325,40 @@ func hCase(h hJSON) (string, error) {
 }
 
 // ---------------------------------------------------------------- configurations
-var partyHosts = []string{"origin.test", "other.test", "www.direct.test", "localhost", "LocalHost", "127.0.0.1", "127.8.8.8", "[::1]", "vm", "10.1.2.3"}
+var partyHosts = []string{"origin.test", "other.test", "www.direct.test", "localhost", "LocalHost", "127.0.0.1", "127.8.8.8", "[::1]", "vm", "10.1.2.3",
+	// spellings the transport maps to another name before it connects (IDNA compatibility mapping)
+	"\u24de\u24e1igin.test" /* circled o,r: origin.test */, "\uff4f\uff54\uff48\uff45\uff52.test" /* fullwidth: other.test */,
+	"\u24dbocalhost" /* circled l: localhost */, "www.\u24d3irect.test" /* www.direct.test */, "b\u00fccher.test" /* xn--bcher-kva.test */}
+
+// punyForm is what httpguts.PunycodeHostPort writes for a non-ASCII host: idna.ToASCII, the plain Punycode
+// profile without compatibility mapping (the name itself when it is ASCII or the conversion fails).
+func punyForm(h string) string {
+	for i := 0; i < len(h); i++ {
+		if h[i] >= 0x80 {
+			if a, err := idna.ToASCII(h); err == nil {
+				return a
+			}
+			break
+		}
+	}
+	return h
+}
+
+// asciiForm is the transport's mapping of a host name (net/http: idna.Lookup.ToASCII on non-ASCII names,
+// the name itself when it is ASCII or the mapping fails).
+func asciiForm(h string) string {
+	for i := 0; i < len(h); i++ {
+		if h[i] >= 0x80 {
+			if a, err := idna.Lookup.ToASCII(h); err == nil {
+				return a
+			}
+			break
+		}
+	}
+	return h
+}
 var proxyHostPorts = []string{"pa.test:3128", "pb.test:8443", "pa.test:80", "10.9.9.9:1080"}
-var directPool = []string{`origin\.test`, `\.test$`, `-other\.test`, `^www\.`, `localhost`, `direct`, `^10\.`, `-^origin`, `127\.0\.0\.1`, `(?i)LOCALHOST`}
+var directPool = []string{`origin\.test`, `^origin\.test$`, `xn--`, `\.test$`, `-other\.test`, `^www\.`, `localhost`, `direct`, `^10\.`, `-^origin`, `127\.0\.0\.1`, `(?i)LOCALHOST`}
 
 func genPacValue(r *rng.R) string {
 	switch r.Intn(10) {
@@ -452,7 +484,14 @@ func isLocalish(h string) bool {
 }
 
 // ---------------------------------------------------------------- fcases / ecases
-func coqCfgd(d cfgDesc, pacRes string, directRes string, isLH bool) string {
+func coqCfgd(d cfgDesc, pacRes string, directRes string, isLH bool, hostname string) string {
+	idnaT, punyT := "(@nil (list N * list N))", "(@nil (list N * list N))"
+	if a := asciiForm(hostname); a != hostname {
+		idnaT = "[(" + cs(hostname) + ", " + cs(a) + ")]"
+	}
+	if a := punyForm(hostname); a != hostname {
+		punyT = "[(" + cs(hostname) + ", " + cs(a) + ")]"
+	}
 	up := "None"
 	if d.Upstream != "" {
 		i := strings.Index(d.Upstream, "://")
@@ -462,8 +501,8 @@ func coqCfgd(d cfgDesc, pacRes string, directRes string, isLH bool) string {
 	if d.UpFunc != "" {
 		uf = "(Some " + coqPresult(d.UpFunc) + ")"
 	}
-	return fmt.Sprintf("{| d_upfunc := %s; d_upstream := %s; d_pac := %s; d_direct := %s; d_lh_mode := %s; d_is_localhost := %s |}",
-		uf, up, pacRes, directRes, cs(d.Mode), coqfmt.Bool(isLH))
+	return fmt.Sprintf("{| d_upfunc := %s; d_upstream := %s; d_pac := %s; d_direct := %s; d_lh_mode := %s; d_is_localhost := %s; d_idna := %s; d_puny := %s |}",
+		uf, up, pacRes, directRes, cs(d.Mode), coqfmt.Bool(isLH), idnaT, punyT)
 }
 
 // oracle answers for ONE request: what the PAC script returns for the URL the implementation passed to the
@@ -490,11 +529,19 @@ func (r *rig) oracles(kind int, scheme, urlhost string, calls []pacCall) (pacRes
 		}
 	}
 	if r.direct != nil {
-		v, err := r.freshDirect(hostname)
-		if err != nil {
-			panic(err)
+		var ents []string
+		names := []string{hostname}
+		if a := asciiForm(hostname); a != hostname {
+			names = append(names, a)
 		}
-		directRes = "(Some " + coqfmt.Bool(v) + ")"
+		for _, n := range names {
+			v, err := r.freshDirect(n)
+			if err != nil {
+				panic(err)
+			}
+			ents = append(ents, "("+cs(n)+", "+coqfmt.Bool(v)+")")
+		}
+		directRes = "(Some " + coqfmt.List("(list N * bool)", ents) + ")"
 	}
 	isLH = r.hp.VerifC05IsLocalhost(hostname)
 	return
@@ -519,8 +566,8 @@ func consistent(hostname string, calls []pacCall, margs []string) bool {
 			return false
 		}
 	}
-	for _, a := range margs {
-		if a != hostname {
+	for _, a := range margs { // the matcher may be asked about the name as written and about its ASCII form
+		if a != hostname && a != asciiForm(hostname) {
 			return false
 		}
 	}
@@ -534,7 +581,7 @@ func fCase(r *rig, kind int, scheme, urlhost string) (string, string) {
 		out = "weird://oracle-asked-about-another-host"
 	}
 	return fmt.Sprintf("{| fc_cfg := %s; fc_t := tgt %d %s %s; fc_out := %s |}",
-		coqCfgd(r.desc, pacRes, directRes, isLH), kind, cs(scheme), cs(urlhost), coqPresult(out)), out
+		coqCfgd(r.desc, pacRes, directRes, isLH, hostname), kind, cs(scheme), cs(urlhost), coqPresult(out)), out
 }
 
 type reqSpec struct {
@@ -588,6 +635,11 @@ func eCase(r *rig, j *eJSON) string {
 		if q.Kind == 3 && !r.desc.MITM || q.Kind == 1 && r.desc.MITM {
 			continue
 		}
+		if q.Kind == 3 && asciiForm(hostname) != hostname {
+			// the proxy cannot mint a certificate for a name that is not ASCII: the TLS handshake with the client
+			// fails before any request exists (C07's territory, not a routing case)
+			continue
+		}
 		scheme, tgtKind, tscheme := "http", 0, "http"
 		switch q.Kind {
 		case 1:
@@ -603,7 +655,7 @@ func eCase(r *rig, j *eJSON) string {
 		}
 		o := sess.request(q.Kind, scheme, q.URLHost)
 		pacRes, directRes, isLH, hn := r.oracles(tgtKind, tscheme, q.URLHost, o.Pac)
-		parts = append(parts, fmt.Sprintf("(%s, tgt %d %s %s, %s)", coqCfgd(r.desc, pacRes, directRes, isLH),
+		parts = append(parts, fmt.Sprintf("(%s, tgt %d %s %s, %s)", coqCfgd(r.desc, pacRes, directRes, isLH, hn),
 			tgtKind, cs(tscheme), cs(q.URLHost), coqObs(o, hn, tgtKind)))
 		kept = append(kept, q)
 		j.Obs = append(j.Obs, o)
@@ -989,6 +1041,10 @@ func runConfigs(r *rng.R, nF, nE int, ss *shardSet, m *meta) {
 		{Upstream: "socks5://pa.test:3128", Mode: "direct"},
 		{Upstream: "https://pb.test:8443", Mode: "allow", Rules: []string{":8443:rt.test:"}},
 		{Mode: "allow", Rules: []string{"origin.test:80:rt.test:9000", "::rt2.test:"}},
+		// IDNA-mapped spellings of hosts the configuration treats specially (direct-domains, localhost in mode direct)
+		{Upstream: "http://pa.test:3128", Mode: "direct", Direct: []string{`^origin\.test$`, `direct`}, IDNA: true},
+		{PAC: &pacDesc{Table: map[string]string{}, Default: "PROXY pb.test:8443"}, Mode: "direct", Direct: []string{`origin\.test`}, IDNA: true},
+		{Upstream: "socks5://pa.test:1080", Mode: "allow", Direct: []string{`-origin`, `\.test$`}, IDNA: true, MITM: true},
 		{Mode: "allow", Rules: chainedRules[0]},
 		{Mode: "allow", Rules: chainedRules[1]},
 		{Upstream: "http://pa.test:3128", Mode: "allow", Rules: chainedRules[2]},
@@ -1017,6 +1073,14 @@ func runConfigs(r *rng.R, nF, nE int, ss *shardSet, m *meta) {
 				{Kind: 0, URLHost: h}, {Kind: 2, URLHost: h + ":80"}, {Kind: 3, URLHost: h + ":80"}, {Kind: 0, URLHost: h + ":80"}, {Kind: 1, URLHost: h + ":80"}}})
 			jb.f = append(jb.f, fJSON{Kind: "func", Cfg: d, ReqKind: 0, Scheme: "http", URLHost: h},
 				fJSON{Kind: "func", Cfg: d, ReqKind: 1, Scheme: "", URLHost: h + ":443"})
+		}
+		if d.IDNA {
+			for _, h := range []string{"\u24de\u24e1igin.test", "\u24dbocalhost", "www.\u24d3irect.test", "\uff4f\uff54\uff48\uff45\uff52.test"} {
+				jb.e = append(jb.e, eJSON{Kind: "e2e", Cfg: d, SameConn: false, Reqs: []reqSpec{
+					{Kind: 0, URLHost: h}, {Kind: 4, URLHost: h}, {Kind: 2, URLHost: h + ":443"}, {Kind: 3, URLHost: h + ":443"}, {Kind: 1, URLHost: h + ":443"}}})
+				jb.f = append(jb.f, fJSON{Kind: "func", Cfg: d, ReqKind: 0, Scheme: "http", URLHost: h},
+					fJSON{Kind: "func", Cfg: d, ReqKind: 1, Scheme: "", URLHost: h + ":443"})
+			}
 		}
 		// one session across the three hosts on one connection
 		jb.e = append(jb.e, eJSON{Kind: "e2e", Cfg: d, SameConn: true, Reqs: []reqSpec{
